@@ -34,8 +34,8 @@ def main(argv):
         return c14.alone_main(a.rest)
     try:
         mod = importlib.import_module("sim.checks.%s" % a.id.lower())
-    except ImportError:
-        print("HARNESS-ERROR unknown check %s\n%s" % (a.id, traceback.format_exc()))
+    except Exception:  # unknown id, or the check module itself is broken: never exit 1 without a VIOLATION line
+        print("HARNESS-ERROR cannot load check %s\n%s" % (a.id, traceback.format_exc()))
         return core.EXIT_HARNESS
     from sim import runner
 
